@@ -8,7 +8,7 @@ import streams as S
 ID = "C10"
 MODULE = "JmesVerif.Props.C10"
 THEOREMS = ["C10_eq_symm", "C10_eq_refl", "C10_ne_is_not_eq", "C10_types_differ_ne", "C10_ord_defined_iff_numbers",
-            "C10_eq_iff_deepEq", "C10_order_consistent", "C10_trichotomy", "C10_le_iff_lt_or_eq", "C10_translated_compare_gate"]
+            "C10_eq_iff_deepEq", "C10_order_consistent", "C10_trichotomy", "C10_le_iff_lt_or_eq", "C10_translated_compare_gate", "C10_translated_equality"]
 TRUSTED_BASE = [
     "Lean 4.33 kernel; axioms propext, Classical.choice, Quot.sound only",
     "hand-written model Model/Compare.lean of variable.rs float_eq / PartialEq / Ord / compare and Model/F64.lean (IEEE binary64 as exact "
